@@ -2,6 +2,7 @@ package performance
 
 import (
 	"fmt"
+	"io"
 	"math"
 
 	"github.com/sboehler/knut/lib/amounts"
@@ -218,7 +219,7 @@ func Performance(dpv *journal.Performance) float64 {
 	return (v1 - outflow) / (v0 + inflow)
 }
 
-func Perf(j *journal.Builder, part date.Partition) *journal.Processor {
+func Perf(w io.Writer, j *journal.Builder, part date.Partition) *journal.Processor {
 	ds := set.FromSlice(j.Days(part.EndDates()))
 	running := 1.0
 	return &journal.Processor{
@@ -228,7 +229,7 @@ func Perf(j *journal.Builder, part date.Partition) *journal.Processor {
 			}
 			running *= Performance(d.Performance)
 			if ds.Has(d) {
-				fmt.Printf("%v: %0.1f%%\n", d.Date, 100*(running-1))
+				fmt.Fprintf(w, "%v: %0.1f%%\n", d.Date, 100*(running-1))
 				running = 1.0
 			}
 			return nil
